@@ -194,6 +194,8 @@ func runOp(d *execData, th string, op string, setWho func()) {
 		err = d.ws.WriteControl(websocket.PongMessage, []byte("po"), time.Time{})
 	case 'C':
 		err = d.ws.WriteControl(websocket.CloseMessage, websocket.FormatCloseMessage(1000, "bye"), time.Time{})
+	case 'c':
+		err = d.ws.WriteMessage(websocket.CloseMessage, websocket.FormatCloseMessage(1000, "bye"))
 	case 'X':
 		err = d.ws.Close()
 	case 'R':
@@ -323,7 +325,7 @@ func judge(d *execData) (outcome, key, what string) {
 	hasCloser := false
 	for _, t := range d.spec.Threads {
 		for _, o := range t.Ops {
-			if o == "C" || o == "X" {
+			if o == "C" || o == "X" || o == "c" {
 				hasCloser = true
 			}
 		}
@@ -408,6 +410,9 @@ func specs() []scenarioSpec {
 		// lock-wait timeouts: a control sender with a deadline may give up while another goroutine holds the write lock
 		{Name: "srv-extra+deadline-ping+close+timeouts", Server: true, WBuf: 32, Threads: []threadSpec{T("D", "M200"), T("K", "T", "T"), T("Z", "C")}, Bounds: []int{0, 1, 2, 3}, ThBounds: unb, Prune: true, Timeouts: true},
 		{Name: "cli-multiframe+deadline-ping+reader-pong+timeouts", Server: false, WBuf: 16, Threads: []threadSpec{T("D", "W40"), T("K", "T"), T("R", "R")}, Bounds: []int{0, 1, 2, 3}, ThBounds: unb, Prune: true, Timeouts: true},
+		// the Close frame goes through the message-writer path (WriteMessage(CloseMessage)), others send control frames meanwhile
+		{Name: "srv-message-close+ping+reader-pong", Server: true, WBuf: 32, Threads: []threadSpec{T("Z", "c"), T("K", "P"), T("R", "R")}, Bounds: unb, Prune: true},
+		{Name: "cli-data-then-message-close+pong+ping", Server: false, WBuf: 16, Threads: []threadSpec{T("D", "M20", "c"), T("K", "O", "P")}, Bounds: unb, Prune: true},
 		{Name: "close-twice+data", Server: true, WBuf: 32, Threads: []threadSpec{T("D", "M10"), T("Z1", "C"), T("Z2", "C", "P")}, Bounds: unb, Prune: true},
 	}
 }
